@@ -96,6 +96,7 @@ package types
 //@   ensures [C20,C01] others: forall x string :: x != k ==> ctx.params[x] == old(ctx.params[x])
 //@   ensures [C20] card: len(ctx.params) == old(len(ctx.params)) + (old(in(k, ctx.params)) ? 0 : 1)
 //@   ensures [C20,C01] keepmap: old(ctx.params) != nil ==> ctx.params == old(ctx.params)
+//@   ensures [C20,C13] fresh-map: old(ctx.params) == nil ==> fresh(ctx.params)
 //
 //@ fn Context.Delete
 //@   requires ctx != nil
